@@ -179,7 +179,13 @@ func init() {
 		return Outcome{Aux: fmt.Sprint(a.X.CmpTotal(a.Y))}
 	})
 	reg("Sign", KRead1, false, false, false, func(a *Args) Outcome {
-		return Outcome{Aux: fmt.Sprint(a.X.Sign(), a.X.IsZero(), a.X.NumDigits(), a.X.Size())}
+		return Outcome{Aux: fmt.Sprint(a.X.Sign(), a.X.IsZero(), a.X.NumDigits())}
+	})
+	// Size reports the memory footprint, which depends on the capacity of the
+	// heap slice and therefore on allocation history: it is exercised (shared
+	// reads) but only compared where both executions have the same history (C18).
+	reg("Size", KRead1, false, false, false, func(a *Args) Outcome {
+		return Outcome{Aux: fmt.Sprint(a.X.Size())}
 	})
 	reg("String", KRead1, false, false, false, func(a *Args) Outcome {
 		return Outcome{Aux: a.X.String()}
@@ -290,9 +296,10 @@ func init() {
 		if form == 0 {
 			o.DVal = DecVal(a.D)
 		} else {
-			// Compose of a non-finite form leaves coefficient and exponent as they were
-			o.Aux = fmt.Sprint(int(a.D.Form), a.D.Negative)
-			a.D.Set(a.X)
+			// Compose of a non-finite form leaves coefficient and exponent as
+			// they were (unspecified); normalise them
+			a.D.Coeff.SetInt64(0)
+			a.D.Exponent = 0
 			o.DVal = DecVal(a.D)
 		}
 		return o
